@@ -341,7 +341,8 @@ def oracle(c, obs):
     feecls = "nonzero" if charged else "zero"
 
     def viol(k, what, **kw):
-        rec = {"kind": k, "mode": kind, "taker_fee": feecls}
+        rec = {"kind": k, "mode": kind, "taker_fee": feecls, "sender_whitelisted": "true" if c["wl"] else "false",
+               "route_taker_fee": "zero" if fees_zero else "nonzero"}
         rec.update(kw)
         v.append({"what": what, "rec": rec})
     # ---- limits: respected, or the whole swap fails without any balance change
@@ -361,7 +362,11 @@ def oracle(c, obs):
         nmsg = len(run.get("route", [])) if kind in ("in", "out") else len(run.get("legs", []))
         all_ok = nmsg > 0 and all(o["err"] == 0 for o in cops) and len(msgs) == nmsg
         if kind in ("in", "out"):
-            if (E["err"] == 0) != all_ok:
+            rp = [h["p"] for h in run.get("route", [])]
+            if kind == "out" and E["err"] != 0 and len(set(rp)) != len(rp):
+                pass    # exact-out over a repeated pool: the router's internal per-hop maxima (computed on the initial state) may
+                        # stop a trade whose hops succeed one by one; only "routed ok => hop-by-hop ok and equal" is claimed
+            elif (E["err"] == 0) != all_ok:
                 viol("composition", "routed swap %s but the hop-by-hop sequence %s" % ("succeeded" if E["err"] == 0 else "failed", "succeeded" if all_ok else "failed"))
             elif all_ok:
                 r2 = zi(msgs[-1]["res"]) if kind == "in" else zi(msgs[0]["res"])
@@ -379,13 +384,13 @@ def oracle(c, obs):
                     viol("split", "split result %s differs from the sum of its legs %d" % (E["res"], tot))
                 if comp["bal1"] != ex["bal1"]:
                     viol("split", "balances after the split swap differ from the balances after its legs")
-    # ---- estimates: never change state; equal the execution whenever it succeeds (each pool visited at most once,
-    #      trader pays the same fees the sender-less estimate assumes)
+    # ---- estimates: never change state; equal the execution whenever it succeeds (each pool visited at most once).
+    #      (for a whitelisted sender with a taker fee on the route this fails: known finding C05-F2)
     for sr in obs["runs"]:
         for o in sr["ops"]:
             if o["k"].startswith("est") and o["pure"] != 1:
                 viol("estimate_mutates", "an estimate query changed the state")
-    if est is not None and E["err"] == 0 and ((not c["wl"]) or fees_zero):
+    if est is not None and E["err"] == 0:
         if kind in ("in", "out"):
             ps = [h["p"] for h in run["route"]]
             if kind == "out" or len(set(ps)) == len(ps):
@@ -592,13 +597,35 @@ def replay(path):
     return 1 if (out.oracle_violations or out.mismatches) else 0
 
 
-SCOPE = "see coq/theories/C05/STATUS.md"
-EXPLANATION = ""
-TRUSTED = []
-ASSUMPTIONS = []
-TECHNIQUE = ""
-LEVEL_TEXT = ""
-LEVEL_NOTE = ""
+SCOPE = ("proved for every pool interface (parametric model, axiom-free): route_in = fold of (taker fee, pool swap) and = first-hop message then rest-of-route "
+         "message; route_out = backward pre-computation then fold of (pool swap-out with per-hop maximum, taker fee on top); split = sum of legs (iff); "
+         "limits for all four messages (out >= min, in <= max incl. taker fee, else Err with state unchanged); estimates leave the state unchanged; "
+         "estimate = execution for exact-in routes visiting each pool at most once and for ALL exact-out routes - for senders that pay the listed taker fee "
+         "(`_partial`); REFUTED for senders on the reduced-fee whitelist under a non-zero taker fee (open finding C05-F2) and, as documented, for repeated pools. "
+         "The two pool laws are hypotheses of the parametric theorems, proved for a concrete constant-product pool (C05/Instance.v) and measured on the real pools.")
+EXPLANATION = ("Gallina model C05/Model.v of x/poolmanager router.go / taker_fee.go / msg_server.go / types/routes.go + the pool-module wrapper of x/gamm/keeper/swap.go, "
+               "parametric in the pool math (PoolIface). Tie to /repo: harness/routerdrv runs the real router on a second poolmanager.Keeper (exported NewKeeper over the "
+               "same stores) whose pool modules are recording proxies; the Coq router is run with a table-driven pool replaying the logged pool answers, and its results, "
+               "error classes and every bank balance (trader, pools, taker-fee collector, community pool) are compared with the implementation for the estimate, the routed "
+               "message and the hop-by-hop messages of every case. The Python oracle checks execution = composition = estimate, split = sum, limits-or-whole-failure on the "
+               "implementation's observations only.")
+TRUSTED = [
+    "hand-written model coq/theories/C05/Model.v, tied to x/poolmanager + x/gamm/keeper/swap.go by the correspondence run (harness/routerdrv against /repo's working tree)",
+    "harness/routerdrv (Go: recording proxies, probes on throw-away branches), props/c05.py (generator, table construction, oracle), Coq vm_compute evaluation of generated case files",
+    "modelled not verified: SDK bank keeper (send = subtract then add, insufficient funds, invalid non-positive coin sets), CacheContext atomicity of messages (DESIGN 1.5)",
+    "not modelled: trackVolume, TakerFeeSkim accumulators (no taker-fee share agreements configured), events, gas, cosmwasm pools/hooks",
+]
+ASSUMPTIONS = [
+    "the pool math reads only the pool's own record (not bank balances) - true of balancer, stableswap and concentrated pools",
+    "amounts stay far below 2^256 (no Int / LegacyDec overflow panics); taker fees in [0, 1)",
+    "the two pool-interface laws (calc = fst of swap, calc leaves the pool unchanged) for the estimate theorems: proved for the constant-product instance, measured on the real pools on every run (reported in notes when they fail)",
+]
+TECHNIQUE = "Coq proofs over a router model parametric in a pool interface; model tied to the real router by differential correspondence through a table-driven pool (vm_compute) + independent oracle"
+LEVEL_TEXT = ("Machine-checked theorems (Coq 8.16.1, axiom-free) for all routes, amounts, taker-fee tables and pool interfaces: composition (exact-in and exact-out), split = sum, "
+              "limits with atomic failure, estimate purity, estimate = execution (`_partial`: fee-paying senders; refuted for whitelisted senders = open finding C05-F2). "
+              "The model is checked against the real x/poolmanager router on generated routes over real balancer / stableswap / concentrated pools on every run.")
+LEVEL_NOTE = ("Trusted: Coq kernel (vm_compute, no native_compute), no axioms; hand-written model; Go driver + python glue; SDK bank / CacheContext semantics. "
+              "The real pools' own math is outside C05 (C03/C04): it enters only through the logged pool answers.")
 
 if __name__ == "__main__":
     # python3 -m props.c05 gen SEED  -> one generated case as JSON
